@@ -119,6 +119,11 @@ def run(ctx):
                     tgt = MU if exp_bit else -MU
                     e = abs(vlib.w32(ph - tgt));
                     if gi not in (10, 11): maxerr = max(maxerr, e)
+                    # the output of a bootstrapped gate is itself a valid input of the next gate ("outputs of other gates" are among the valid ciphertexts):
+                    # its phase lies within 1/32 of +-1/8 (about 10 standard deviations for a two-input gate, 7 for MUX)
+                    if gi not in (10, 11, 12) and bit == exp_bit and e > 2**27 and kind != 'edge':
+                        ctx.report('gate-output-not-admissible', '%s/%s, %d-bit set: %s on %s inputs decrypts correctly but its phase is %.4f away from %s1/8: the output is not a valid input (phase within 1/32 of +-1/8) for the next gate' % (
+                                   backend, build, lam, g, kind, e / 2.0**32, '+' if exp_bit else '-'), {'case': line[:200000], 'gate': g, 'kind': kind, 'phase_error': e / 2.0**32, 'backend': backend, 'build': build})
                     if kind == 'edge' and exp is None and bit != exp_bit:
                         # the combination sits exactly on a rounding tie: C13 allows either direction, the model of the library rounds up.
                         # A disagreement here means the constant/coefficients moved by one unit or the tie direction changed: not a wrong truth table by itself
